@@ -521,6 +521,7 @@ def main():
             undecided.append('obligations %s fail, but the proof script of %s no longer fits the code (lost anchors / renamed locals / %s) and the bounded witness search found no failing input: undecided, not an alarm'
                              % (sorted(set(v['clause'] for v in ambiguous)), sorted(set(str(v.get('fn')) for v in ambiguous)), '; '.join(stale_notes) or 'no shape change'))
 
+    wit = None
     known, fixed = load_known()
     out_lines = []
     real = []
@@ -583,13 +584,34 @@ def main():
                 real.append(dict(clause='undecided-by-verifier'))
                 rc = 1
 
+    # "exit 0 if the property held on everything explored": when the ONLY reason for not deciding is that part of the
+    # proof could not be carried out on this tree -- a function body left the verifier's subset (demoted), or
+    # obligations fail in a function whose proof script no longer fits the restructured code -- and the bounded
+    # search on the real code (run with the larger fallback budget) found no failing input, the verdict is OK
+    # *partial*: everything that could be explored held.  The parts that could not are printed (PARTIAL lines) and
+    # recorded in the evidence (`undecided`, discharged < obligations).  Tool failures, resource limits, lost
+    # functions, vacuity and trusted-base findings stay exit 2.
+    partial = False
+    if rc == 2 and undecided:
+        soft = [u for u in undecided if "is outside the verifier's subset on this tree" in u or u.startswith('obligations [')]
+        fb = wit if wit is not None else amb_wit
+        searched = (fb is not None and fb.get('status') == 'not-found') or (scen_wit is not None and scen_wit.get('status') == 'not-found' and prop in SCENARIOS)
+        if len(soft) == len(undecided) and searched and not os.environ.get('VERIF_STRICT_UNDECIDED'):
+            rc = 0
+            partial = True
+            obligations += len(soft)   # what could not be established stays visible: discharged < obligations
+
     for ln in out_lines:
         print(ln)
     if rc == 2:
         for u in undecided:
             print('UNDECIDED: ' + u[:1500])
     elif rc == 0:
-        print('OK property=%s tier=%s obligations=%d discharged=%d units=%s wall=%.1fs' % (prop, tier, obligations, discharged, ','.join(pc['units']), time.time() - t0))
+        if partial:
+            for u in undecided:
+                print('PARTIAL: ' + u[:1500])
+        print('OK property=%s tier=%s obligations=%d discharged=%d units=%s wall=%.1fs%s' % (prop, tier, obligations, discharged, ','.join(pc['units']), time.time() - t0,
+              ' partial=%d (not established on this tree; bounded search found no failing input)' % len(undecided) if partial else ''))
     if other_failures:
         for f in other_failures:
             print('note: obligation %s (tags %s) failed; it does not carry %s' % (f['clause'], ','.join(f.get('tags') or []), prop))
